@@ -10,6 +10,8 @@ from __future__ import annotations
 
 import itertools
 
+import math
+
 import mpmath
 import numpy as np
 from mpmath import mpf
@@ -81,6 +83,35 @@ def _vectors(dim, tier):
 
 KW_L = {"z": 0.8125, "theta": 2.125, "eta": -0.6875}
 KW_T = {"t": 7.25, "tau": 1.375}
+# value variants of an imputed keyword: the property says "exactly the coordinate passed by keyword", so zero (float, negative
+# float zero, int) and sign-flipped values are strata of their own (a truthiness test instead of `is not None` only shows at 0)
+KW_VARIANTS = ("pos", "zero", "negzero", "intzero", "neg")
+KW_ALT = {"z": -3.0625, "theta": 0.375, "eta": 1.4375, "t": -9.125, "tau": -2.625}
+
+
+def kw_value(f, variant, base=None):
+    """value of keyword coordinate f (a geometric name z/theta/eta/t/tau) under a variant"""
+    if variant == "pos":
+        return base if base is not None else (KW_L[f] if f in KW_L else KW_T[f])
+    if variant == "zero":
+        return 0.0
+    if variant == "negzero":
+        return -0.0
+    if variant == "intzero":
+        return 0
+    return KW_ALT[f]
+
+
+def same_value(got, want):
+    """equal, and a zero keeps its sign (the value is to be stored unchanged)"""
+    if not (got == want):
+        return False
+    try:
+        if float(want) == 0.0 and not isinstance(want, mpf) and not isinstance(got, mpf):
+            return math.copysign(1.0, float(got)) == math.copysign(1.0, float(want))
+    except (TypeError, ValueError):
+        pass
+    return True
 
 
 def _is_mom(r):
@@ -128,14 +159,14 @@ def check_object(res: Result, v: Vec, ssys, flavor, layer, tier, only=None):
             choices += [(f,) for f in missing]
             if len(missing) == 2:
                 choices.append(tuple(missing))
-        for given in choices:
+        for given, variant in [(g_, v_) for g_ in choices for v_ in (KW_VARIANTS if g_ else ("pos",)) if not (layer == "L1" and v_ in ("negzero", "intzero"))]:
             res.states += 1
             res.transitions += 1
             kwargs = {}
             for f in given:
-                val = KW_L[f] if f in KW_L else KW_T[f]
+                val = kw_value(f, variant)
                 kwargs[kwmap[f]] = mpf(val) if layer == "L1" else val
-            call = name + ("(" + ",".join(kwmap[f] for f in given) + ")" if given else "")
+            call = name + ("(" + ",".join(kwmap[f] for f in given) + (")" if variant == "pos" else f";{variant})") if given else "")
             try:
                 r = getattr(obj, name)(**kwargs)
             except Exception as e:  # noqa: BLE001
@@ -156,7 +187,7 @@ def check_object(res: Result, v: Vec, ssys, flavor, layer, tier, only=None):
             for f in missing:
                 got = rst[fields.index(f)]
                 want = kwargs[kwmap[f]] if f in given else 0
-                if not (got == want):
+                if not same_value(got, want):
                     viol("imputed_value", call, f"{call}: coordinate {f} = {got!r}, expected {want!r}")
                     bad = True
             if bad:
@@ -233,12 +264,15 @@ def check_dimchange_object(res, obj, v, ssys, flavor, layer, viol, done):
     val = (lambda x: mpf(x)) if layer == "L1" else (lambda x: x)
     others = {2: vector.obj(x=1.0, y=2.0), 3: vector.obj(x=1.0, y=2.0, eta=0.5), 4: vector.obj(rho=1.0, phi=2.0, z=0.5, tau=3.0)}
     calls = dim_calls(dim) + [(f"like({d}D)", "like", (), d) for d in (2, 3, 4)]
-    for label, meth, kws, tdim in calls:
+    calls = [(lab if var == "pos" else lab[:-1] + f";{var})", meth, kws, tdim, var) for lab, meth, kws, tdim in calls for var in (KW_VARIANTS if kws else ("pos",))
+             if not (layer == "L1" and var in ("negzero", "intzero"))]
+    for label, meth, kws, tdim, variant in calls:
         res.states += 1
         res.transitions += 1
         kwargs = {}
         for k in kws:
-            kwargs[k] = val(3.0625) if k in L_SPELL else val(9.125)
+            kv = kw_value(L_SPELL[k] if k in L_SPELL else T_SPELL[k], variant, base=3.0625 if k in L_SPELL else 9.125)
+            kwargs[k] = val(kv) if not isinstance(kv, int) else kv
         try:
             if meth == "like":
                 r = obj.like(others[tdim])
@@ -262,13 +296,13 @@ def check_dimchange_object(res, obj, v, ssys, flavor, layer, viol, done):
             if dim < 3:
                 lk = next((k for k in kws if k in L_SPELL), None)
                 want_sys, want_val = (L_SPELL[lk], kwargs[lk]) if lk else ("z", 0)
-                if rsys[1] != want_sys or not (rst[2] == want_val):
+                if rsys[1] != want_sys or not same_value(rst[2], want_val):
                     viol("embedding_value", "dimchange:" + label, f"{label}: longitudinal {rsys[1]} = {rst[2]!r}, expected {want_sys} = {want_val!r}")
                     ok = False
             if tdim == 4 and ok:
                 tk = next((k for k in kws if k in T_SPELL), None)
                 want_sys, want_val = (T_SPELL[tk], kwargs[tk]) if tk else ("t", 0)
-                if rsys[2] != want_sys or not (rst[3] == want_val):
+                if rsys[2] != want_sys or not same_value(rst[3], want_val):
                     viol("embedding_value", "dimchange:" + label, f"{label}: temporal {rsys[2]} = {rst[3]!r}, expected {want_sys} = {want_val!r}")
                     ok = False
         if ok:
@@ -310,11 +344,13 @@ def check_arrays(res: Result, dim, ssys, backend, tier, only=None):
         def viol(clause, call, msg):
             res.violation(f"{clause}|{call}|{L.sysname(ssys)}|{backend}", msg, dict(base, call=call))
 
-        def kwval(f, arrayform):
-            val = KW_L[f] if f in KW_L else KW_T[f]
+        def kwval(f, arrayform, variant="pos", base=None):
+            val = kw_value(f, variant, base)
             if not arrayform:
                 return val, [val] * n
-            vals = [val + 0.125 * i for i in range(n)]
+            # array-valued keyword: element 0 carries the variant's value (a zero among non-zeros), the others are distinct
+            vals = [val] + [(base if base is not None else (KW_L[f] if f in KW_L else KW_T[f])) + 0.125 * i for i in range(1, n)]
+            vals = [float(x) for x in vals]
             if backend == "NP":
                 return np.array(vals), vals
             return ak.unflatten(ak.Array(vals), ak.num(arr, axis=1)) if arr.layout.purelist_depth > 1 else ak.Array(vals), vals
@@ -330,17 +366,17 @@ def check_arrays(res: Result, dim, ssys, backend, tier, only=None):
                 if len(missing) == 2:
                     choices.append((tuple(missing), False))
                     choices.append((tuple(missing), True))
-            for given, arrayform in choices:
+            for given, arrayform, variant in [(g_, a_, v_) for g_, a_ in choices for v_ in (KW_VARIANTS if g_ else ("pos",))]:
                 res.states += 1
                 res.transitions += 1 + n
                 kwargs, okw, expect_kw = {}, [dict() for _ in range(n)], {}
                 for f in given:
-                    kv, per = kwval(f, arrayform)
+                    kv, per = kwval(f, arrayform, variant)
                     kwargs[kwmap[f]] = kv
                     expect_kw[f] = per
                     for i in range(n):
                         okw[i][kwmap[f]] = per[i]
-                call = name + ("(" + ",".join(kwmap[f] for f in given) + (";array" if arrayform else "") + ")" if given else "")
+                call = name + ("(" + ",".join(kwmap[f] for f in given) + (";array" if arrayform else "") + ("" if variant == "pos" else ";" + variant) + ")" if given else "")
                 try:
                     r = getattr(arr, name)(**kwargs)
                     kind, rsys, rflavor, rrows, struct = B.result_rows(r)
@@ -365,7 +401,7 @@ def check_arrays(res: Result, dim, ssys, backend, tier, only=None):
                         a, b = rrows[i][j], float(ost[j])
                         if f in missing:
                             want = expect_kw[f][i] if f in given else 0.0
-                            if a != want:
+                            if not same_value(a, want):
                                 bad = f"element {i}: imputed {f} = {a!r}, expected {want!r}"
                         elif not (a == b or abs(a - b) <= 1e-11 * max(1.0, abs(a), abs(b)) or (a != a and b != b)):
                             bad = f"element {i}: {f} = {a!r} but the object backend gives {b!r}"
@@ -378,10 +414,16 @@ def check_arrays(res: Result, dim, ssys, backend, tier, only=None):
                 res.evaluations += 1
                 res.nontrivial += 1
         if only is None or only.startswith("dimchange"):
-            for label, meth, kws, tdim in dim_calls(dim) + [(f"like({d}D)", "like", (), d) for d in (2, 3, 4)]:
+            dcalls = [(lab if (var, af) == ("pos", False) else lab[:-1] + (";array" if af else "") + ("" if var == "pos" else ";" + var) + ")", meth, kws, tdim, var, af)
+                      for lab, meth, kws, tdim in dim_calls(dim) + [(f"like({d}D)", "like", (), d) for d in (2, 3, 4)]
+                      for var in (KW_VARIANTS if kws else ("pos",)) for af in ((False, True) if kws else (False,))]
+            for label, meth, kws, tdim, variant, af in dcalls:
                 res.states += 1
                 res.transitions += 1
-                kwargs = {k: (3.0625 if k in L_SPELL else 9.125) for k in kws}
+                kwargs, per_el = {}, {}
+                for k in kws:
+                    kv, per = kwval(L_SPELL[k] if k in L_SPELL else T_SPELL[k], af, variant, base=3.0625 if k in L_SPELL else 9.125)
+                    kwargs[k], per_el[k] = kv, per
                 try:
                     if meth == "like":
                         other = {2: vector.obj(x=1.0, y=2.0), 3: vector.obj(x=1.0, y=2.0, eta=0.5), 4: vector.obj(rho=1.0, phi=2.0, z=0.5, tau=3.0)}[tdim]
@@ -403,15 +445,15 @@ def check_arrays(res: Result, dim, ssys, backend, tier, only=None):
                 if tdim > dim:
                     if dim < 3:
                         lk = next((k for k in kws if k in L_SPELL), None)
-                        ws, wv = (L_SPELL[lk], kwargs[lk]) if lk else ("z", 0.0)
-                        if rsys[1] != ws or any(a[2] != wv for a in rrows):
-                            viol("embedding_value", "dimchange:" + label, f"{label}: longitudinal {rsys[1]} = {rrows[0][2]!r}, expected {ws} = {wv!r}")
+                        ws, wv = (L_SPELL[lk], per_el[lk]) if lk else ("z", [0.0] * n)
+                        if rsys[1] != ws or any(not same_value(a[2], w) for a, w in zip(rrows, wv)):
+                            viol("embedding_value", "dimchange:" + label, f"{label}: longitudinal {rsys[1]} = {[a[2] for a in rrows]!r}, expected {ws} = {wv!r}")
                             ok = False
                     if tdim == 4 and ok:
                         tk = next((k for k in kws if k in T_SPELL), None)
-                        ws, wv = (T_SPELL[tk], kwargs[tk]) if tk else ("t", 0.0)
-                        if rsys[2] != ws or any(a[3] != wv for a in rrows):
-                            viol("embedding_value", "dimchange:" + label, f"{label}: temporal {rsys[2]} = {rrows[0][3]!r}, expected {ws} = {wv!r}")
+                        ws, wv = (T_SPELL[tk], per_el[tk]) if tk else ("t", [0.0] * n)
+                        if rsys[2] != ws or any(not same_value(a[3], w) for a, w in zip(rrows, wv)):
+                            viol("embedding_value", "dimchange:" + label, f"{label}: temporal {rsys[2]} = {[a[3] for a in rrows]!r}, expected {ws} = {wv!r}")
                             ok = False
                 if ok:
                     res.traces += 1
